@@ -543,7 +543,7 @@ Definition give_handle (e : ep) (oid : N) : ep * list N :=
   match get_stream e oid with
   | Some s =>
       let sid := len (e_handles e) in
-      (set_handles e (e_handles e ++ [oid]), [0; sid; st_port s] ++ put_lp (st_host s))
+      (set_handles e (e_handles e ++ [oid]), [0; sid; st_port s] ++ put_lp (st_host s) ++ [st_id s])
   | None => (e, R_NA)
   end.
 
